@@ -298,6 +298,14 @@ def _nested_any(join_k, v0, k, other: int, built: bool, name: str, prop: str = "
             w.conn().pre_statement = None
             if not st["done"]:
                 run_b()  # k beyond A's last statement: B simply runs after A
+            # a StartStage that was re-queued (deferred start / re-plan request) is delivered later
+            for n_re, _d in enumerate(_msgs(w, "StartStage", j.id)[:2]):
+                m3 = StartStage(execution_id=wf.id, stage_id=j.id, created_at=_CREATED, retry_count=1)
+                m3.message_id = str(950 + n_re)
+                with hx.native():
+                    w.db.tables["queue_messages"][:] = [r for r in w.db.tables["queue_messages"]
+                                                        if not (r["message_type"] == "StartStage" and (r["payload"].obj if isinstance(r["payload"], symdb.JText) else json.loads(r["payload"])).get("stage_id") == j.id)]
+                StartStageHandler(qb, sb).handle(m3)
             row = row_of(w, "stage_executions", j.id)
             tasks = [r for r in w.table("task_executions") if r["stage_id"] == j.id]
             start_tasks = [d for d in _msgs(w, "StartTask") if d.get("stage_id") == j.id]
